@@ -45,6 +45,13 @@ EXPR_KINDS = {
     "sub": (lambda A, s: A["a" + s][A["x" + s]], [("a", "arr"), ("x", "num")]),
     "call": (lambda A, s: A["f" + s](A["x" + s]), [("f", "fn"), ("x", "num")]),
     "lsh": (lambda A, s: A["x" + s] << 1, [("x", "num")]),
+    # trees that pymbolic's own zero test (bool(node)) considers zero or that contain such a piece
+    "zfdiv": (lambda A, s: 0 // A["x" + s], [("x", "num")]),
+    "zmod": (lambda A, s: 0 % A["x" + s], [("x", "num")]),
+    "zquot": (lambda A, s: 0 / A["x" + s], [("x", "num")]),
+    "subz": (lambda A, s: 3 - 0 // A["x" + s], [("x", "num")]),
+    "subzm": (lambda A, s: A["y" + s] - 0 % A["x" + s], [("x", "num"), ("y", "num")]),
+    "prodz": (lambda A, s: A["y" + s] * (0 // A["x" + s]), [("x", "num"), ("y", "num")]),
 }
 CONST_KINDS = {"0": 0, "1": 1, "-1": -1, "2": 2, "0.0": 0.0, "1.0": 1.0, "True": True, "False": False, "c": "c"}
 QUICK_EXPR = list(EXPR_KINDS)
@@ -87,6 +94,11 @@ def items(tier):
                 out.append(("ctor", m, lk, rk))
                 if m == "not_":
                     break
+    # chains of the logical constructor methods (receiver / argument is itself a logical node)
+    for m1 in ["and_", "or_", "not_"]:
+        for m2 in ["and_", "or_", "not_"]:
+            for grp in "LR":
+                out.append(("ctor2", m1, m2, grp))
     chain_ops = ["+", "-", "*"] if tier == "quick" else ["+", "-", "*", "/", "//", "%"]
     atoms = ["v", "0", "1", "-1", "c"]
     for o1 in chain_ops:
@@ -397,6 +409,8 @@ def check_item(item, tier):
         text, atom_list, fn = _mat_program(item)
         res = ItemResult(item=f"mat: {text}", sample={"program": text, "family": "2x2 matrices"})
         return _run_program(text, atom_list, fn, "int", tier, res, eq=mat_eq_term, sig_prefix="mat: ")
+    if t == "ctor2":
+        return _check_ctor2(item, tier)
     if t == "ctor":
         return _check_ctor(item, tier)
     if t == "order":
@@ -433,6 +447,37 @@ def _check_ctor(item, tier):
         if m == "and_":
             return bool(l) and bool(r)
         return bool(l) or bool(r)
+
+    def eq(a, b):
+        return sym.truth_term(a) == sym.truth_term(b)
+    return _run_program(text, atom_list, fn, "int", tier, res, eq=eq)
+
+
+def _logic(m, l, r=None):
+    if isinstance(l, p.Expression):
+        return l.not_() if m == "not_" else getattr(l, m)(r)
+    if m == "not_":
+        return not l
+    if isinstance(r, p.Expression):       # plain receiver, tree argument: build the node the method would build
+        return (p.LogicalAnd if m == "and_" else p.LogicalOr)((l, r))
+    return (bool(l) and bool(r)) if m == "and_" else (bool(l) or bool(r))
+
+
+def _check_ctor2(item, tier):
+    m1, m2, grp = item[1:]
+    if grp == "L":
+        text = f"(x1.{m1}({'x2' if m1 != 'not_' else ''})).{m2}({'x3' if m2 != 'not_' else ''})"
+    else:
+        text = f"x1.{m1}(x2.{m2}({'x3' if m2 != 'not_' else ''}))" if m1 != "not_" else f"(x2.{m2}({'x3' if m2 != 'not_' else ''})).not_()"
+    res = ItemResult(item=text, sample={"program": text})
+    atom_list = [("x1", "num"), ("x2", "num"), ("x3", "num")]
+
+    def fn(A):
+        x1, x2, x3 = A["x1"], A["x2"], A["x3"]
+        if grp == "L":
+            return _logic(m2, _logic(m1, x1, x2), x3)
+        inner = _logic(m2, x2, x3)
+        return _logic(m1, x1, inner) if m1 != "not_" else _logic("not_", inner)
 
     def eq(a, b):
         return sym.truth_term(a) == sym.truth_term(b)
